@@ -3,6 +3,7 @@ package main
 import (
 	"fmt"
 	"go/types"
+	"os"
 	"strings"
 
 	"golang.org/x/tools/go/ssa"
@@ -22,8 +23,11 @@ var effectFreePrefixes = []string{
 	"(error).Error", "(fmt.Stringer).String", "reflect.TypeOf", "(reflect.Type).",
 	"github.com/bloxapp/ssv/utils/format.", "golang.org/x/exp/slices.Contains", "golang.org/x/exp/maps.Keys",
 	"(*github.com/bloxapp/ssv/operator/duties.Scheduler).loggerWithSlot", "os.Getenv", "runtime.",
+	"(*github.com/herumi/bls-eth-go-binary/bls.", "github.com/herumi/bls-eth-go-binary/bls.",
 	"github.com/ethereum/go-ethereum/common.", "(github.com/ethereum/go-ethereum/common.", "(*math/big.Int).", "math/big.",
 }
+
+var debugOn = os.Getenv("GOWP_DEBUG") != ""
 
 func isEffectFree(name string) bool {
 	for _, p := range effectFreePrefixes {
@@ -200,7 +204,7 @@ func (fr *frame) call2(b *ssa.BasicBlock, site ssa.Instruction, c *ssa.CallCommo
 			atypes = append([]types.Type{c.Value.Type()}, atypes...)
 		}
 	}
-	if x.eng.pureFuncs[name] || fr.pure[name] || fr.pure[shortCallee(name)] {
+	if x.eng.pureFuncs[name] || fr.pure[name] || fr.pure[shortCallee(name)] || (name != "" && x.eng.isRigid(name)) {
 		pureKey = name
 	}
 	if pureKey != "" {
@@ -219,6 +223,9 @@ func (fr *frame) call2(b *ssa.BasicBlock, site ssa.Instruction, c *ssa.CallCommo
 		name = "dynamic call of " + c.Value.Type().String()
 	}
 	x.havocCalls[name] = true
+	if debugOn {
+		fmt.Fprintf(os.Stderr, "DEBUG havoc: %s calls %s at %s\n", fr.fn, name, x.eng.fset.Position(site.Pos()))
+	}
 	nh := x.havocAll(h, reach)
 	x.sc.assert(implies(reach, x.typeFacts(rt, res, nh)))
 	return res, nh
@@ -553,15 +560,15 @@ func (fr *frame) appendBuiltin(args []Val, atypes []types.Type, rt types.Type, r
 			srcArr := app("select", old, add.ts[0])
 			newArr := x.freshConst("apparr", heapSort(l.Sort))
 			// contents: [0,len) from s, [len,len+k) from add, everything else of the in-place array unchanged
-			x.sc.assert(fmt.Sprintf("(forall ((i! Int)) (! (=> (and (<= 0 i!) (< i! %s)) (= (select %s (+ %s i!)) (select %s (+ %s i!)))) :pattern ((select %s (+ %s i!)))))",
-				s.ts[2], newArr, noff, oldArr, s.ts[1], newArr, noff))
-			x.sc.assert(fmt.Sprintf("(forall ((i! Int)) (! (=> (and (<= 0 i!) (< i! %s)) (= (select %s (+ %s %s i!)) (select %s (+ %s i!)))) :pattern ((select %s (+ %s %s i!)))))",
-				add.ts[2], newArr, noff, s.ts[2], srcArr, add.ts[1], newArr, noff, s.ts[2]))
+			x.sc.assert(fmt.Sprintf("(forall ((i! Int)) (! (=> (and (<= 0 i!) (< i! %s)) (= (select %s %s) (select %s %s))) :pattern ((select %s %s))))",
+				s.ts[2], newArr, sidx(noff, "i!"), oldArr, sidx(s.ts[1], "i!"), newArr, sidx(noff, "i!")))
+			x.sc.assert(fmt.Sprintf("(forall ((i! Int)) (! (=> (and (<= %s i!) (< i! %s)) (= (select %s %s) (select %s %s))) :pattern ((select %s %s))))",
+				s.ts[2], newLen, newArr, sidx(noff, "i!"), srcArr, sidx(add.ts[1], app("-", "i!", s.ts[2])), newArr, sidx(noff, "i!")))
 			x.sc.assert(implies(inPlace, fmt.Sprintf("(forall ((i! Int)) (! (=> (or (< i! (+ %s %s)) (>= i! (+ %s %s))) (= (select %s i!) (select %s i!))) :pattern ((select %s i!))))",
 				s.ts[1], s.ts[2], s.ts[1], newLen, newArr, oldArr, newArr)))
 			// single-element fast path (no quantifier needed by the solver)
 			if isSimple(add.ts[2]) && add.ts[2] == "1" {
-				x.sc.assert(eq(app("select", newArr, app("+", noff, s.ts[2])), app("select", srcArr, add.ts[1])))
+				x.sc.assert(eq(app("select", newArr, sidx(noff, s.ts[2])), app("select", srcArr, sidx(add.ts[1], "0"))))
 			}
 			nh = x.hset(nh, key, ite(eq(add.ts[2], "0"), old, app("store", old, nb, newArr)))
 		}
@@ -594,12 +601,12 @@ func (fr *frame) copyBuiltin(args []Val, atypes []types.Type, reach Term, h Heap
 			newArr := x.freshConst("copyarr", heapSort(l.Sort))
 			if fromString {
 				x.sc.declFun("strat", []string{"Int", "Int"}, "Int")
-				x.sc.assert(fmt.Sprintf("(forall ((i! Int)) (! (=> (and (<= 0 i!) (< i! %s)) (= (select %s (+ %s i!)) (strat %s i!))) :pattern ((select %s (+ %s i!)))))",
-					nn, newArr, dst.ts[1], args[1].ts[0], newArr, dst.ts[1]))
+				x.sc.assert(fmt.Sprintf("(forall ((i! Int)) (! (=> (and (<= 0 i!) (< i! %s)) (= (select %s %s) (strat %s i!))) :pattern ((select %s %s))))",
+					nn, newArr, sidx(dst.ts[1], "i!"), args[1].ts[0], newArr, sidx(dst.ts[1], "i!")))
 			} else {
 				srcArr := app("select", old, args[1].ts[0])
-				x.sc.assert(fmt.Sprintf("(forall ((i! Int)) (! (=> (and (<= 0 i!) (< i! %s)) (= (select %s (+ %s i!)) (select %s (+ %s i!)))) :pattern ((select %s (+ %s i!)))))",
-					nn, newArr, dst.ts[1], srcArr, srcOff, newArr, dst.ts[1]))
+				x.sc.assert(fmt.Sprintf("(forall ((i! Int)) (! (=> (and (<= 0 i!) (< i! %s)) (= (select %s %s) (select %s %s))) :pattern ((select %s %s))))",
+					nn, newArr, sidx(dst.ts[1], "i!"), srcArr, sidx(srcOff, "i!"), newArr, sidx(dst.ts[1], "i!")))
 			}
 			x.sc.assert(fmt.Sprintf("(forall ((i! Int)) (! (=> (or (< i! %s) (>= i! (+ %s %s))) (= (select %s i!) (select %s i!))) :pattern ((select %s i!))))",
 				dst.ts[1], dst.ts[1], nn, newArr, dstArr, newArr))
